@@ -459,6 +459,10 @@ size_t GlobalGraph::getNumberOfIncomingNeighbors(const Graph::NodeId node) const
 
 vector<Graph::NodeId> GlobalGraph::getNeighbors(const Graph::NodeId node) const
 {
+  // in an undirected graph every relation is stored in both directions
+  if (!directed_)
+    return getNeighbors_(node, true);
+
   vector<Graph::NodeId> result;
   vector<Graph::NodeId> neighborsToInsert;
   neighborsToInsert = getNeighbors_(node, false);
@@ -925,6 +929,10 @@ Graph::EdgeId GlobalGraph::getEdge(Graph::NodeId nodeA, Graph::NodeId nodeB) con
 
 vector<Graph::EdgeId> GlobalGraph::getEdges(Graph::NodeId node) const
 {
+  // in an undirected graph every relation is stored in both directions
+  if (!directed_)
+    return getEdges_(node, true);
+
   vector<Graph::EdgeId> result;
   vector<Graph::EdgeId> edgesToInsert;
   edgesToInsert = getEdges_(node, false);
